@@ -90,8 +90,8 @@ type G struct {
 	only  int // 0 both, 1 source only, 2 canon only
 }
 
-func (g *G) opt() bool      { return g.c.Choose(2) == 1 }
-func (g *G) alt(n int) int  { return g.c.Choose(n) }
+func (g *G) opt() bool     { return g.c.Choose(2) == 1 }
+func (g *G) alt(n int) int { return g.c.Choose(n) }
 func (g *G) emit(t Tok) {
 	if g.only != 2 {
 		g.src = append(g.src, t)
@@ -206,9 +206,9 @@ func (g *G) list0(item func()) {
 	}
 }
 
-func (g *G) num(s string)   { g.emit(Tok{Text: s, Class: NUM, Val: s}) }
-func (g *G) param()         { g.emit(Tok{Text: "@p", Class: PARAM, Val: "p"}) }
-func (g *G) strTok(text, val string) { g.emit(Tok{Text: text, Class: STR, Val: val}) }
+func (g *G) num(s string)              { g.emit(Tok{Text: s, Class: NUM, Val: s}) }
+func (g *G) param()                    { g.emit(Tok{Text: "@p", Class: PARAM, Val: "p"}) }
+func (g *G) strTok(text, val string)   { g.emit(Tok{Text: text, Class: STR, Val: val}) }
 func (g *G) bytesTok(text, val string) { g.emit(Tok{Text: text, Class: BYTES, Val: val}) }
 
 // str emits a string literal in one of several quote forms.
@@ -218,6 +218,8 @@ func (g *G) str() {
 		{`'a\'b"c'`, `a'b"c`}, {`'é\x41\101\n'`, "éAA\n"}, {`''`, ""}, {`'''a'b'''`, "a'b"},
 		// values the unparser has to escape: non-printable Latin-1, control, astral and replacement characters
 		{`'\u00a0\u0085\u00ad'`, "\u00a0\u0085\u00ad"}, {`'\U000E0001\ufffd'`, "\U000E0001\ufffd"}, {`'\x01\x7f\r\t'`, "\x01\x7f\r\t"},
+		// values that are not valid UTF-8 (a string literal may contain arbitrary bytes through \x escapes)
+		{`'a\xef'`, "a\xef"}, {`'\xef\xbf'`, "\xef\xbf"}, {`'\xff\xc3'`, "\xff\xc3"},
 	}
 	f := forms[g.alt(len(forms))]
 	g.strTok(f.text, f.val)
